@@ -1,19 +1,21 @@
-(* R ptkloop hex (Protracker M.K., Model/ModLoad.v) | Q hex (Composer 669, Model/C669Load.v) -> "FAIL" | "RAW post=<loader_postb> | chn len pat trk ins smp spd bpm rst | xxo ... | nsm,sub ... | len,lps,lpe,flg,data ... | gate=<REJECT|ok>"
+(* R ptkloop hex (Protracker M.K., Model/ModLoad.v) | Q hex (Composer 669, Model/C669Load.v) | T hex (MultiTracker, Model/MtmLoad.v) -> "FAIL" | "RAW post=<loader_postb> | chn len pat trk ins smp spd bpm rst | xxo ... | nsm,sub ... | len,lps,lpe,flg,data ... | gate=<REJECT|ok>"
    (the structural part of what mod_load leaves behind for the file, as Model/ModLoad.v computes it) *)
 open Modload_model
 open Zio
 let () = iter_lines (fun l ->
   (match words l with
-   | ["R"; _; _] | ["Q"; _] ->
-      (match (match words l with ["R"; pk; h] -> mod_raw (pk <> "0") (zlist_of_hex h) | [_; h] -> c669_raw (zlist_of_hex h) | _ -> None) with
+   | ["R"; _; _] | ["Q"; _] | ["T"; _] ->
+      (match (match words l with ["R"; pk; h] -> mod_raw (pk <> "0") (zlist_of_hex h) | ["Q"; h] -> c669_raw (zlist_of_hex h) | ["T"; h] -> mtm_raw (zlist_of_hex h) | _ -> None) with
        | None -> print_string "FAIL"
        | Some r ->
           let m = r.r_m in
-          Printf.printf "RAW post=%d | %s | %s | %s | %s | gate=%s" (if loader_postb r then 1 else 0)
+          Printf.printf "RAW post=%d | %s | %s | %s | %s | gate=%s | %s | %s" (if loader_postb r then 1 else 0)
             (String.concat " " (List.map zs [m.d_chn; m.d_len; m.d_pat; m.d_trk; m.d_ins; m.d_smp; m.d_spd; m.d_bpm; m.d_rst]))
             (String.concat " " (List.map zs m.d_xxo))
             (String.concat " " (List.map (fun i -> zs i.i_nsm ^ "," ^ (if i.i_sub then "1" else "0")) m.d_inss))
             (String.concat " " (List.map (fun s -> String.concat "," [zs s.sm_len; zs s.sm_lps; zs s.sm_lpe; zs s.sm_flg; (if s.sm_data then "1" else "0")]) m.d_smps))
-            (match finish r with None -> "REJECT" | Some _ -> "ok"))
+            (match finish r with None -> "REJECT" | Some _ -> "ok")
+            (String.concat " " (List.map (fun p -> match p with None -> "NULL" | Some p -> String.concat "," (List.map zs (p.p_rows :: p.p_index))) m.d_pats))
+            (String.concat " " (List.map (fun (v, pn) -> zs v ^ "," ^ zs pn) m.d_chans)))
    | _ -> print_string "?");
   print_newline ())
